@@ -244,11 +244,17 @@ def write_cells(path, cells, cellsize, tail=0, fid=1):
     with open(path, "wb") as f:
         total = len(cells) * cellsize + tail
         f.truncate(total)
-        for i, c in enumerate(cells):
-            if c == 0:
-                continue
-            f.seek(i * cellsize)
-            f.write((b"\0" if c < 0 else bytes([cell_byte(fid, i)])) * cellsize)
+        i, n = 0, len(cells)
+        while i < n:                      # one write per run of consecutive non-hole cells
+            if cells[i] == 0:
+                i += 1; continue
+            j = i
+            buf = bytearray()
+            while j < n and cells[j] != 0:
+                buf += (b"\0" if cells[j] < 0 else bytes([cell_byte(fid, j)])) * cellsize
+                j += 1
+            f.seek(i * cellsize); f.write(buf)
+            i = j
         if tail:
             f.seek(len(cells) * cellsize)
             f.write(bytes([cell_byte(fid, len(cells))]) * tail)
@@ -259,20 +265,40 @@ def cell_byte(fid, i):
     return 1 + (fid * 37 + i * 11) % 255
 
 def read_cells(path, cellsize, fid=1):
-    """-> (length, cells, tail) with each cell 0 (all zero), the expected index-derived value k (as 1) or 'MIXED'.
-    A data cell is reported as its index+1 if it holds exactly the byte pattern of cell `index` of file fid,
-    else as -(other index+1) when it holds another cell's pattern, else 999 (MIXED)."""
-    st = os.stat(path)
-    n = st.st_size
-    cells = []
+    """-> (length, cells, tail length, tail class): each cell 0 (all zero), i+1 if it holds exactly the byte pattern of cell i of
+    file fid, -(j+1) when it holds the pattern of another cell j, 999 when mixed, 998 when uniform but foreign."""
     with open(path, "rb") as f:
-        full = n // cellsize
+        data = f.read()
+    n = len(data)
+    full = n // cellsize
+    if cellsize == 1:
+        cells = []
         for i in range(full):
-            cells.append(_classify(f.read(cellsize), fid, i, full + 1))
-        tailb = f.read()
+            b = data[i]
+            cells.append(0 if b == 0 else (i + 1 if b == 1 + (fid * 37 + i * 11) % 255 else _foreign(b, fid, full + 1)))
+    else:
+        zero = bytes(cellsize)
+        pats = {}
+        cells = []
+        for i in range(full):
+            chunk = data[i * cellsize:(i + 1) * cellsize]
+            if chunk == zero:
+                cells.append(0); continue
+            cb = 1 + (fid * 37 + i * 11) % 255
+            pat = pats.get(cb)
+            if pat is None:
+                pat = pats[cb] = bytes([cb]) * cellsize
+            cells.append(i + 1 if chunk == pat else _classify(chunk, fid, i, full + 1))
+    tailb = data[full * cellsize:]
     tail = len(tailb)
     tailc = _classify(tailb, fid, full, full + 1) if tail else 0
     return n, cells, tail, tailc
+
+def _foreign(b, fid, ncells):
+    for j in range(min(ncells + 2, 300)):
+        if b == cell_byte(fid, j):
+            return -(j + 1)
+    return 998
 
 def _classify(b, fid, i, ncells):
     if not any(b):
@@ -282,10 +308,7 @@ def _classify(b, fid, i, ncells):
         return 999
     if first == cell_byte(fid, i):
         return i + 1
-    for j in range(ncells + 2):
-        if first == cell_byte(fid, j):
-            return -(j + 1)
-    return 998
+    return _foreign(first, fid, ncells)
 
 def data_map(path):
     """SEEK_DATA/SEEK_HOLE map: list of [start, end) data segments."""
